@@ -242,6 +242,7 @@ HARNESSES = {
     "evalprog": dict(opt="-O1"),
     "optree": dict(opt="-O1"),
     "unitscript": dict(opt="-O1"),
+    "errloc": dict(opt="-O1"),
     "json": dict(opt="-O1", sanitize=True, compiler="clang++-14", flags=["-fno-sanitize=signed-integer-overflow"]),
     "stl": dict(opt="-O1", sanitize=True, compiler="clang++-14"),
 }
